@@ -113,7 +113,7 @@ func extremeSeqs(seed uint64, n int) []gen.Seq {
 		mk("onebit", 0, 0, ""), mk("onebit", 0, -1, ""), mk("onebit", 0, n/2, ""),
 		mk("sparse", 3, 0, ""), mk("periodic", 3, 0, ""), mk("periodic", 7, 0, ""),
 		mk("uniform", 0, 0, ""), mk("balanced", 0, 0, ""), mk("bias", 10, 0, ""), mk("bias", 990, 0, ""), mk("bias", 300, 0, ""),
-		mk("markov", 990, 0, ""), mk("markov", 10, 0, ""), mk("lfsr", 17, 0, ""), mk("singlerun", n/2, n/4, ""), mk("longruns", 3, 0, ""), mk("longruns", 1, 0, ""),
+		mk("markov", 990, 0, ""), mk("markov", 10, 0, ""), mk("lfsr", 17, 0, ""), mk("singlerun", n/2, n/4, ""), mk("longruns", 3, 0, ""), mk("longruns", 1, 0, ""), mk("debruijn", 0, 0, ""), mk("debruijn", 6, 0, ""), mk("debruijn", 7, 5, ""), mk("debruijn", 10, 0, ""), mk("counter", 0, 0, ""),
 	}
 	return out
 }
